@@ -32,6 +32,18 @@ def evalOp (ws : List String) : String :=
         let br := if vub == maxU32 then "win.sat" else "win.plain"
         s!"HALT ret={nonce.toNat},{vub.toNat} br={br}"
     | none => "bad-op"
+  | "windowseq" :: st :: hs =>
+    match hs.mapM parseNat? with
+    | some hs =>
+      let rs := modifierSeq (if st == "-" then "" else st) (hs.map Nat.toUInt32)
+      if rs.all Option.isNone then "FAULT br=winseq.state"
+      else
+        let items := rs.map (fun r => match r with
+          | some (nonce, vub) => s!"{nonce.toNat}:{vub.toNat}"
+          | none => "ERR")
+        let ws := (hs.map (· / 100)).eraseDups.length
+        s!"HALT ret=[{joinWith ";" items}] br=winseq.windows{if ws ≥ 3 then "3+" else toString ws}"
+    | none => "bad-op"
   | ["encode", s, v, n] =>
     match parseShared s v n with
     | some x => s!"HALT ret={hexOf x.bytes},{hexOf x.encodeToString} br=enc"
